@@ -1,10 +1,11 @@
 import Driver.Util
 open Lean Replicat
-namespace Driver
-
+namespace Driver.HRetry
 /-- requests `retry.*` (see DESIGN.md Appendix A) -/
 def handleRetry (op : String) (j : Json) : Except String Json := do
   match op with
   | _ => throw s!"unknown op {op}"
 
-end Driver
+end Driver.HRetry
+
+def Driver.handleRetry := Driver.HRetry.handleRetry
